@@ -8,7 +8,8 @@ from fractions import Fraction as Fr
 import numpy as np
 from vf import core
 from vf.ref import dims, c19_dimtable as DT
-from vf.gen import c19_spell as SP
+from vf.gen import c19_spell as SP, c19_hist as HG
+from vf.monitors import c19_history as HM
 from .common import chunks
 
 RULE = ("one evaluation = one call of a helper (allclose_units, assert_allclose_units, np.allclose, np.isclose, np.array_equal, "
@@ -629,12 +630,15 @@ def outcome_equal(fn, unyt, a, b, kw):
     return ("refuse", f"returned-{type(r).__name__}")
 
 
-def run_equal(rec, unyt, ua, ub, ka, kb, ra, rb, label, fns):
+def run_equal(rec, unyt, ua, ub, ka, kb, ra, rb, label, fns, objs=None):
     """ra/rb: readings. Expected: accept iff units equal and readings equal elementwise (array_equal: same shape; array_equiv:
-    broadcastable)."""
+    broadcastable).  objs: operands already built by the caller (units of user registries)"""
     rel = unit_relation(ua, ub)
-    a, ra = make_operand(unyt, ka, ra, ua)
-    b, rb = make_operand(unyt, kb, rb, ub)
+    if objs is not None:
+        (a, b), ra, rb = objs, np.asarray(ra, dtype="f8"), np.asarray(rb, dtype="f8")
+    else:
+        a, ra = make_operand(unyt, ka, ra, ua)
+        b, rb = make_operand(unyt, kb, rb, ub)
     if rel is None:
         rec.note("equal:unit-relation-not-judged")
         return
@@ -729,11 +733,15 @@ SENT = object()
 
 def dim_object(unyt, name, how, r):
     """the dimension handed to the decorator: module attribute, composite of base dimensions, or read off a Unit"""
-    import sympy
     D = unyt.dimensions
-    vec = ALLV[name]
     if how == "attr" and hasattr(D, name):
         return getattr(D, name)
+    return dim_from_vec(unyt, ALLV[name])
+
+
+def dim_from_vec(unyt, vec):
+    import sympy
+    D = unyt.dimensions
     basis = [D.mass, D.length, D.time, D.temperature, D.angle, D.current_mks, D.luminous_intensity, D.logarithmic]
     e = sympy.Integer(1)
     for bsym, p in zip(basis, vec):
@@ -742,28 +750,29 @@ def dim_object(unyt, name, how, r):
     return e
 
 
-def make_arg(unyt, r, u, form):
-    """value passed to / returned from the wrapped function"""
+def make_arg(unyt, r, u, form, registry=None):
+    """value passed to / returned from the wrapped function; registry: the user registry the unit symbol is read in"""
     if u.s is None:
         return r.choice([3.5, np.array([1.0, 2.0]), 7, [1.0, 2.0]]) if form != "bare-float" else 3.5
+    kw = {} if registry is None else {"registry": registry}
     if form == "qty":
-        return unyt.unyt_quantity(2.5, u.s)
+        return unyt.unyt_quantity(2.5, u.s, **kw)
     if form == "arr":
-        return unyt.unyt_array([1.0, 2.0, 3.0], u.s)
+        return unyt.unyt_array([1.0, 2.0, 3.0], u.s, **kw)
     if form == "int":
-        return unyt.unyt_array(np.array([1, 2, 3]), u.s)
+        return unyt.unyt_array(np.array([1, 2, 3]), u.s, **kw)
     if form == "mul":
-        return 2.5 * unyt.Unit(u.s)
+        return 2.5 * unyt.Unit(u.s, **kw)
     if form == "restored":
-        return pickle.loads(pickle.dumps(unyt.unyt_quantity(2.5, u.s)))
+        return pickle.loads(pickle.dumps(unyt.unyt_quantity(2.5, u.s, **kw)))
     if form == "arith":
         try:
-            return unyt.unyt_quantity(5.0, u.s) * 3.0 / 2.0
+            return unyt.unyt_quantity(5.0, u.s, **kw) * 3.0 / 2.0
         except Exception:            # offset and logarithmic units refuse arithmetic (C08): pass the plain quantity
-            return unyt.unyt_quantity(2.5, u.s)
+            return unyt.unyt_quantity(2.5, u.s, **kw)
     if form == "converted":
-        return unyt.unyt_array([2.5, 1.0], u.s).in_units(u.s)[0]
-    return unyt.unyt_quantity(2.5, u.s)
+        return unyt.unyt_array([2.5, 1.0], u.s, **kw).in_units(u.s)[0]
+    return unyt.unyt_quantity(2.5, u.s, **kw)
 
 
 ARG_FORMS = ["qty", "arr", "mul", "restored", "int", "arith", "converted"]
@@ -823,16 +832,24 @@ def spelled(r, u):
     return u.cls
 
 
-def run_accepts(rec, unyt, r, tname, form, dname_a, dname_b, how, xa, xb, filler, stacked_returns=None):
-    """xa/xb: (value, U, argform).  Expected: pass iff every explicitly bound checked parameter has the stated dimension."""
-    log = []
-    raw, forms = templates(log)[tname]
-    da, db = dim_object(unyt, dname_a, how, r), dim_object(unyt, dname_b, how, r)
-    try:
-        wrapped = unyt.accepts(a=da, b=db)(raw)
-    except Exception as e:
-        rec.violation(f"C19:accepts:{tname}:decorating-raises:{type(e).__name__}", f"accepts(a={dname_a}, b={dname_b}) on template {tname} raised {e}", None)
-        return
+def run_accepts(rec, unyt, r, tname, form, dname_a, dname_b, how, xa, xb, filler, stacked_returns=None, shared=None):
+    """xa/xb: (value, U, argform).  Expected: pass iff every explicitly bound checked parameter has the stated dimension.
+    shared: dict that keeps the decorated function between calls (the same function called again); None: a new function"""
+    skey = ("accepts", tname, dname_a, dname_b, how)
+    if shared is not None and skey in shared:
+        log, raw, forms, wrapped = shared[skey]
+        del log[:]
+    else:
+        log = []
+        raw, forms = templates(log)[tname]
+        da, db = dim_object(unyt, dname_a, how, r), dim_object(unyt, dname_b, how, r)
+        try:
+            wrapped = unyt.accepts(a=da, b=db)(raw)
+        except Exception as e:
+            rec.violation(f"C19:accepts:{tname}:decorating-raises:{type(e).__name__}", f"accepts(a={dname_a}, b={dname_b}) on template {tname} raised {e}", None)
+            return
+        if shared is not None:
+            shared[skey] = (log, raw, forms, wrapped)
     args, kwargs = forms[form](xa[0], xb[0], filler)
     try:
         bound = inspect.signature(raw).bind(*args, **kwargs).arguments
@@ -891,8 +908,8 @@ def run_accepts(rec, unyt, r, tname, form, dname_a, dname_b, how, xa, xb, filler
 RET_TEMPLATES = ["single", "tuple2", "tuple3", "surplus-values", "r_unit-keyword", "with-arguments", "stacked-accepts"]
 
 
-def run_returns(rec, unyt, r, tname, how, items):
-    """items: list of (dimension name, (value, U, argform)) for the returned values"""
+def run_returns(rec, unyt, r, tname, how, items, shared=None):
+    """items: list of (dimension name, (value, U, argform)) for the returned values.  shared: as for run_accepts"""
     import warnings
     log = []
     vals = [x[0] for _, x in items]
@@ -905,29 +922,39 @@ def run_returns(rec, unyt, r, tname, how, items):
         checked = items[:1]
     else:
         RET = tuple(vals)
-    dobjs = [dim_object(unyt, dn, how, r) for dn, _ in checked]
-
-    def f(*args, **kw):
-        log.append((args, kw)); return RET
-
-    def g(a, k=None):
-        log.append(((a,), {"k": k})); return RET
+    skey = ("returns", tname, how, tuple(dn for dn, _ in checked))
     call_args, call_kw = (), {}
-    try:
-        with warnings.catch_warnings():
-            warnings.simplefilter("ignore")
-            if tname == "r_unit-keyword":
-                wrapped = unyt.returns(r_unit=dobjs[0])(f)
-            elif tname == "stacked-accepts":
-                wrapped = unyt.accepts(a=dobjs[0])(unyt.returns(*dobjs)(g))
-                call_args, call_kw = (vals[0],), {"k": 5}
-            else:
-                wrapped = unyt.returns(*dobjs)(f)
-                if tname == "with-arguments":
-                    call_args, call_kw = (vals[0], 4), {"k": "v"}
-    except Exception as e:
-        rec.violation(f"C19:returns:{tname}:decorating-raises:{type(e).__name__}", f"returns(...) raised {e}", None)
-        return
+    if tname == "stacked-accepts":
+        call_args, call_kw = (vals[0],), {"k": 5}
+    elif tname == "with-arguments":
+        call_args, call_kw = (vals[0], 4), {"k": "v"}
+    if shared is not None and skey in shared:
+        log, box, wrapped = shared[skey]       # the same decorated function, returning the new value this time
+        del log[:]
+        box[0] = RET
+    else:
+        dobjs = [dim_object(unyt, dn, how, r) for dn, _ in checked]
+        box = [RET]
+
+        def f(*args, **kw):
+            log.append((args, kw)); return box[0]
+
+        def g(a, k=None):
+            log.append(((a,), {"k": k})); return box[0]
+        try:
+            with warnings.catch_warnings():
+                warnings.simplefilter("ignore")
+                if tname == "r_unit-keyword":
+                    wrapped = unyt.returns(r_unit=dobjs[0])(f)
+                elif tname == "stacked-accepts":
+                    wrapped = unyt.accepts(a=dobjs[0])(unyt.returns(*dobjs)(g))
+                else:
+                    wrapped = unyt.returns(*dobjs)(f)
+        except Exception as e:
+            rec.violation(f"C19:returns:{tname}:decorating-raises:{type(e).__name__}", f"returns(...) raised {e}", None)
+            return
+        if shared is not None:
+            shared[skey] = (log, box, wrapped)
     bad = [i for i, (dn, x) in enumerate(checked) if x[1].dim != ALLV[dn]]
     exp = "pass" if not bad else "refuse"
     try:
@@ -974,6 +1001,227 @@ def run_returns(rec, unyt, r, tname, how, items):
             rec.ok(cell)
 
 
+# ------------------------------------------------------------------------------------------------ histories over registries
+class History:
+    """one unit symbol with several definitions (vf.gen.c19_hist): builds the registries, performs the edits, hands out values.
+    needs: role -> {key: maker(registry)}: every value of a definition that a later step uses, so that in the re-add scenarios
+    they are created while that definition is the current one"""
+
+    def __init__(self, unyt, spec, needs):
+        from unyt.unit_registry import UnitRegistry
+        self.unyt, self.spec, self.needs = unyt, spec, needs
+        self.sym, self.scen = spec["sym"], spec["scenario"]
+        self.chain = list(spec["roles"])
+        self.readd = self.scen.startswith("readd")
+        self.regs, self.vals, self.shared, self.cur = {}, {}, {}, -1
+        if self.readd:
+            R = UnitRegistry()
+            for role in self.chain:
+                self.regs[role] = R
+            self._define(0)
+            if self.scen == "readd":
+                for j in range(1, len(self.chain)):
+                    self._define(j)
+        for j, role in enumerate(spec["variants"]):
+            if role in self.regs:
+                continue
+            first = self.chain and role == self.chain[0]
+            if self.scen == "default-vs-user" and first:
+                reg = unyt.unit_registry.default_unit_registry
+            else:
+                reg = UnitRegistry()
+            self._add(reg, role)
+            if self.scen == "json-registry" and first:
+                reg = UnitRegistry.from_json(reg.to_json())
+            self.regs[role] = reg
+
+    def _add(self, reg, role):
+        name, scale = self.spec["variants"][role]
+        D = self.unyt.dimensions
+        reg.add(self.sym, float(scale), getattr(D, name) if hasattr(D, name) else dim_from_vec(self.unyt, ALLV[name]))
+
+    def _define(self, j):
+        R = self.regs[self.chain[j]]
+        if self.cur >= 0:
+            old = self.chain[self.cur]
+            for key, maker in self.needs.get(old, {}).items():
+                self.value(old, key, maker)
+            R.remove(self.sym)
+        self._add(R, self.chain[j])
+        self.cur = j
+
+    def registry_arg(self, role):
+        reg = self.regs[role]
+        return None if reg is self.unyt.unit_registry.default_unit_registry else reg
+
+    def value(self, role, key, maker):
+        k = (role, key)
+        if k not in self.vals:
+            if self.readd and role in self.chain:
+                j = self.chain.index(role)
+                if j < self.cur:
+                    raise RuntimeError(f"history plan incomplete: value {k} of an earlier definition requested after the edit")
+                while self.cur < j:
+                    self._define(self.cur + 1)
+            self.vals[k] = maker(self.registry_arg(role))
+        return self.vals[k]
+
+    def U(self, role, tagged=False):
+        name, scale = self.spec["variants"][role]
+        return SP.U(f"{self.sym}@{role}" if tagged else self.sym, float(scale), 0.0, ALLV[name], "registry-symbol", True)
+
+
+def hist_reqs(unyt, spec, st):
+    """the values of S one step needs: [(slot, role, key, maker)]"""
+    sym = spec["sym"]
+    out = []
+    if st["h"] in ("accepts", "returns"):
+        u = SP.U(sym, 1.0, 0.0, dims.ZERO, "registry-symbol", True)
+        form = st["argform"]
+        out.append(("arg", st["role"], "arg:" + form, lambda reg, form=form: make_arg(unyt, None, u, form, registry=reg)))
+        return out
+    for slot in ("x", "y"):
+        o = st[slot]
+        if o[0] == "S":
+            rd = [float(v) for v in o[2]]
+            out.append((slot, o[1], "arr:" + repr(rd), lambda reg, rd=rd: unyt.unyt_array(np.array(rd), sym, **({} if reg is None else {"registry": reg}))))
+    if st.get("atol"):
+        role, t = st["atol"]
+        out.append(("atol", role, "atol:" + repr(float(t)), lambda reg, t=t: unyt.unyt_quantity(float(t), sym, **({} if reg is None else {"registry": reg}))))
+    return out
+
+
+def hist_build(unyt, spec, only=None):
+    """only: build for that single step (the cold process)"""
+    needs = {}
+    for st in (spec["steps"] if only is None else [spec["steps"][only]]):
+        for slot, role, key, maker in hist_reqs(unyt, spec, st):
+            needs.setdefault(role, {}).setdefault(key, maker)
+    return History(unyt, spec, needs)
+
+
+def hist_step(unyt, H, spec, i, cap):
+    """one helper call of a history, judged against the reference into the recorder cap"""
+    st = spec["steps"][i]
+    got = {slot: (H.value(role, key, maker), role) for slot, role, key, maker in hist_reqs(unyt, spec, st)}
+    if st["h"] in ("accepts", "returns"):
+        val, role = got["arg"]
+        x = (val, H.U(role), st["argform"])
+        sname = spec["variants"][st.get("stated", spec["stated"])][0]
+        pn, pu = spec["partner"]
+        pU = SP.BARE if pu is None else SP.evaluate(pu, "atomic")
+        pform = "bare-float" if pu is None else "qty"
+        y = (make_arg(unyt, None, pU, pform), pU, "bare" if pu is None else "qty")
+        how = spec["how"]
+        shared = H.shared if st.get("sharing", spec["sharing"]) == "same-function" else None
+        if st["h"] == "accepts":
+            fill = unyt.unyt_quantity(2.5, "K")
+            if spec["side"] == "a":
+                run_accepts(cap, unyt, None, st["tname"], st["form"], sname, pn, how, x, y, fill, shared=shared)
+            else:
+                run_accepts(cap, unyt, None, st["tname"], st["form"], pn, sname, how, y, x, fill, shared=shared)
+        else:
+            y2 = (make_arg(unyt, None, pU, pform), pU, y[2])
+            items = [(sname, x), (pn, y), (pn, y2)]
+            if st["tname"] == "tuple2":
+                items = items[:2]
+            if spec["s_last"] and st["tname"] in ("tuple2", "tuple3"):
+                items = items[::-1]
+            run_returns(cap, unyt, None, st["tname"], how, items, shared=shared)
+        return
+    ps, pcls = spec["partner"]
+    pU = SP.evaluate(ps, pcls)
+
+    def operand(slot):
+        o = st[slot]
+        if o[0] == "S":
+            return got[slot][0], np.array(o[2], dtype="f8"), H.U(o[1], tagged=True)
+        rd = np.array(o[1], dtype="f8")
+        return unyt.unyt_array(rd.copy(), pU.s), rd, pU
+    a, ra, ua = operand("x")
+    b, rb, ub = operand("y")
+    fn = st["fn"]
+    case = {"symbol": spec["sym"], "scenario": spec["scenario"], "definitions": spec["variants"], "x": st["x"], "y": st["y"],
+            "partner-unit": ps, "profile": st["profile"]}
+    if st["h"] == "equal":
+        run_equal(cap, unyt, ua, ub, "arr", "arr", ra, rb, st["profile"], [fn], objs=(a, b))
+        return
+    npf = fn.startswith("np.")
+    forced = None
+    if ua.dim != ub.dim:
+        forced = "incommensurable-operands" if (ua.dim != dims.ZERO and ub.dim != dims.ZERO) else "dimensionless-vs-dimensional-operands"
+    if st.get("atol"):
+        at_obj, arole = got["atol"]
+        au = H.U(arole)
+        if au.dim != ua.dim:
+            forced = "incommensurable-atol"
+        case["atol"] = st["atol"]
+        judge_close(cap, unyt, fn, "kw", a, b, "arr", "arr", ra, rb, ua, ub, "zero", 0.0, 0.0, "qty", at_obj, [float(st["atol"][1]) * au.a],
+                    forced, spec["fam"], case)
+    else:
+        judge_close(cap, unyt, fn, "kw", a, b, "arr", "arr", ra, rb, ua, ub, "default", None, 1e-5 if npf else 1e-7, "default", None,
+                    [1e-8 * ua.a, 1e-8 * ub.a] if npf else [0.0], forced, spec["fam"], case)
+
+
+def hist_cold(unyt):
+    """handler of the cold process: build the one history, make the one call, report what the judge said"""
+    def handler(req):
+        cap = HM.CapRec()
+        H = hist_build(unyt, req["spec"], only=req["step"])
+        hist_step(unyt, H, req["spec"], req["step"], cap)
+        return cap.wire()
+    return handler
+
+
+def hist_cellx(spec, i):
+    st = spec["steps"][i]
+    if spec["kind"] == "deco":
+        stated = st.get("stated", spec["stated"])
+        pos = "revisit" if st.get("revisit") else ("first", "second", "again")[min(i // 2, 2)]
+        return ("history", spec["scenario"], "stated-is-" + ("this" if stated == st["role"] else "other") + "-definition",
+                spec["order"], st.get("sharing", spec["sharing"]), pos)
+    return ("history", spec["scenario"], spec["order"], st["profile"])
+
+
+def hist_coarse(key):
+    """C19:accepts:<template/form>:<kind>:... / C19:returns:<template>:<kind>:... -> C19:<decorator>:<kind>;
+    C19:<helper>:<kind>:... -> C19:<helper>:<kind>"""
+    p = key.split(":")
+    if len(p) > 3 and p[1] in ("accepts", "returns"):
+        return ":".join([p[0], p[1], p[3]])
+    return ":".join(p[:3])
+
+
+def run_histories(rec, unyt, srv, specs, fresh_every=1, on_demand=150):
+    """all steps in order in this process (whose earlier steps are the history); every fresh_every-th step, and every step the
+    reference judges wrong (up to on_demand of them), also alone in a cold process"""
+    Hs = {}
+    n = 0
+    for hi, spec in enumerate(specs):
+        rec.reach("history-scenario:" + spec["kind"] + "/" + spec["scenario"])
+        for i in range(len(spec["steps"])):
+            n += 1
+            cap = HM.CapRec()
+            if hi not in Hs:
+                Hs[hi] = hist_build(unyt, spec)
+            hist_step(unyt, Hs[hi], spec, i, cap)
+            sampled = (n + hi) % fresh_every == 0
+            if not sampled and on_demand > 0 and any(e[0] == "violation" for e in cap.events):
+                sampled = True
+                on_demand -= 1
+            fresh = HM.NOT_SAMPLED
+            if sampled:
+                fresh = srv.call({"spec": spec, "step": i})
+                if fresh is None:
+                    rec.note("history:cold-process-failed:" + str(getattr(srv, "last_error", "timeout"))[:80])
+            v = HM.merge(rec, cap.events, fresh, ":history/" + spec["scenario"], hist_cellx(spec, i),
+                         {"history": {k: spec[k] for k in ("sym", "scenario", "roles", "variants", "order")}, "step": spec["steps"][i], "step-index": i},
+                         coarse=hist_coarse)
+            if v == "unjudged":
+                rec.count("history:steps-not-judged")
+        Hs.pop(hi, None)
+
+
 # ------------------------------------------------------------------------------------------------ batches / worker
 def wrong_pool_for(unyt, rec, fam, r):
     d = ALLV[fam]
@@ -1001,6 +1249,12 @@ def batches(tier, seed):
         dn = sorted(ALLV)
         for i, c in enumerate(chunks(dn, 10 if quick else 20)):
             b.append((f"deco/s{sd}/{i}", ("deco", c, sd, (5, 5) if quick else (12, 10))))
+    # histories: one symbol with several definitions (user registries, registry edits), each call also alone in a cold process
+    for sd in ([seed] if quick else [seed, seed + 101]):
+        for i, c in enumerate(chunks(sorted(ALLV), 8 if quick else 16)):
+            b.append((f"hist-deco/s{sd}/{i}", ("hist-deco", c, sd, 0 if quick else 1)))
+        for i, c in enumerate(chunks(fams, 4 if quick else 12)):
+            b.append((f"hist-close/s{sd}/{i}", ("hist-close", c, sd, 0 if quick else 1)))
     b.append(("catalogue", ("catalogue", [], 0, None)))
     return b
 
@@ -1024,7 +1278,59 @@ def worker(batch, rec):
         rec.count("batch-cpu-ms", int(1000 * (_time.process_time() - t0)))
 
 
+def symbol_is_free(unyt, sym):
+    """a history symbol must mean nothing in the default registry (neither for the reference resolver nor for unyt)"""
+    from vf.ref import names
+    if names.resolve(sym) is not None:
+        return False
+    try:
+        unyt.Unit(sym)
+    except Exception:
+        return True
+    return False
+
+
 def _worker(unyt, rec, bid, part, items, seed, size, r):
+    if part in ("hist-deco", "hist-close"):
+        from vf.monitors.c12_coldserver import ColdServer
+        import unyt._array_functions              # an import, not workload: every process that calls np.* on a quantity has it
+        SP.evaluate("km/s", "atomic")             # warm the REFERENCE side (vf.ref tables), which is not under judgement
+        srv = ColdServer(hist_cold(unyt))         # before any workload: the server keeps the import-time state of unyt
+        try:
+            wide = bool(size)
+            k0 = r.randrange(1000)
+            if part == "hist-deco":
+                tforms = {t: sorted(fs) for t, (_, fs) in templates([]).items()}
+                specs = HG.deco_histories(r, items, ALLV, tforms, RET_TEMPLATES, ARG_FORMS, k0, wide)
+            else:
+                pools = {}
+                for fam in items:
+                    pr = core.rng(seed, "hist-pool", fam)
+                    pool = build_pool(unyt, rec, ALLV[fam], 4, pr, need_exact=True, allow_offset=False)
+                    if pool:
+                        pools[fam] = [[u.s, u.a, u.cls] for u in pool]
+                        rec.reach("history-family:" + fam)
+                    else:
+                        rec.note(f"history-family-skipped:{fam}")
+                specs = HG.close_histories(r, items, ALLV, pools, CLOSE_FNS, EQ_FNS, k0, wide)
+            free = {}
+            keep = []
+            for sp in specs:
+                if sp["sym"] not in free:
+                    free[sp["sym"]] = symbol_is_free(unyt, sp["sym"])
+                if free[sp["sym"]]:
+                    keep.append(sp)
+                else:
+                    rec.count("history:symbol-clashes-with-default-registry")
+            rec.count("history:histories", len(keep))
+            for sp in keep[:2]:
+                rec.sample({"history": {k: sp[k] for k in ("kind", "sym", "scenario", "roles", "variants", "order")}, "steps": len(sp["steps"]), "first-steps": sp["steps"][:3]})
+            run_histories(rec, unyt, srv, keep, fresh_every=2 if not wide else 4)
+        finally:
+            rec.count("history:cold-calls", srv.calls)
+            rec.count("history:cold-failed", srv.failed)
+            srv.close()
+        return
     if part == "catalogue":
         D = unyt.dimensions
         for name in module_dimension_names(unyt):
@@ -1147,6 +1453,8 @@ def _worker(unyt, rec, bid, part, items, seed, size, r):
 
 
 SUBS = [f"sub:{fn}:{e}-expected" for fn in CLOSE_FNS + EQ_FNS + ("accepts", "returns") for e in ("accept", "refuse")]
+SUBS += [f"sub:history:{fn}:{e}-expected" for fn in CLOSE_FNS + EQ_FNS + ("accepts", "returns") for e in ("accept", "refuse")]
+SUBS += ["sub:history:fresh-compared"]
 
 
 def extra(tier, seed, results):
@@ -1166,6 +1474,7 @@ def extra(tier, seed, results):
     cat = [f"accepts:{t}/{f}" for t, (_, fs) in templates([]).items() for f in fs] + ["returns:" + t for t in RET_TEMPLATES]
     cat += ["spelling-class:" + c for c in ("atomic", "prefixed", "alias", "alias-prefixed", "base-si", "base-cgs", "base-imp", "base-pow",
                                             "base-sqrt", "base-mix", "named-compound", "ratio", "offset:atomic")]
+    cat += [f"history-scenario:{k}/{sc}" for k in ("deco", "close") for sc in HG.SCENARIOS]
     call_forms = [c for c in cat if c not in reached]
     ok_batches = sum(1 for _, res in results if res.get("status") == "ok")
     zero = [k for k, v in subs.items() if v == 0]
@@ -1175,4 +1484,5 @@ def extra(tier, seed, results):
     return {"batch_cpu_seconds": {"total": round(sum(c for c, _ in cpu) / 1000, 1), "slowest": [[b, round(c / 1000, 1)] for c, b in cpu[:4]]},
             "sub_monitor_evaluations": subs, "unreached": {"dimension-names": unreached, "families": fams, "call-forms-and-spelling-classes": call_forms},
             "helper_calls": {k[6:]: v for k, v in counters.items() if k.startswith("calls:")},
+            "histories": {k[8:]: v for k, v in counters.items() if k.startswith("history:")},
             "discarded": {k: v for k, v in counters.items() if k.startswith("discarded") or k.startswith("pool-dropped")}}
